@@ -171,6 +171,36 @@ def run(repo: Repo, rep: Report, tier: str) -> None:
     _borrow11(repo, rep, "C03", "C03-R2", "C11-R4", "a constant write enable means what the same value on a wire means: the builder treats an enable as always-on exactly for the "
               "constants the lowerer produces for an unconditional write (1), not for any non-zero or negative constant", select=lambda o: "constant-one enables" in o.construct, floor=1)
 
+    # ---------------- R5 ---------------------------------------------------------------
+    rep.rule("C11-R5", "a comparison decided at emission is the program's comparison: wherever the emitter evaluates two constants itself (`_compare_constants(op, a, b)`), the operator "
+             "is the row's own comparator when a, b are in program order (first, second / left, right), and the mirrored comparator only together with swapped operands")
+    em5 = repo.cls("PlanEntityEmitter")
+    n5 = 0
+    for m5 in em5.methods.values():
+        c5 = canon(m5)
+        for k5 in [c for c in ast.walk(m5.node) if isinstance(c, ast.Call) and call_name(c) == "_compare_constants" and len(c.args) == 3]:
+            n5 += 1
+            # the comparator argument as written at the call, with the reaching definitions of the local it reads
+            op_alts = c5.alts(k5.args[0])
+            mirrored = [a for a in op_alts if "_MIRRORED" in a or "MIRROR" in a.upper()]
+            # the comparator may be read back from the row dict: a mirrored value stored under the same key on the way to the call counts
+            if isinstance(k5.args[0], ast.Subscript) and isinstance(k5.args[0].value, ast.Name):
+                from ..cfg import CFG as _CFG5
+                g5 = _CFG5(m5.node)
+                call_st = stmt_of(m5, k5)
+                for st5 in g5.stmts():
+                    if isinstance(st5, ast.Assign) and isinstance(st5.targets[0], ast.Subscript) and norm(st5.targets[0]) == norm(k5.args[0]) and "MIRROR" in norm(st5.value).upper() \
+                            and st5 is not call_st and g5.dominates(st5, call_st):
+                        mirrored = op_alts  # every path to the call passes the mirrored store
+            a1, a2 = c5.text(k5.args[1]), c5.text(k5.args[2])
+            in_order = ("first" in a1 and "second" in a2) or ("left" in a1 and "right" in a2)
+            swapped = ("second" in a1 and "first" in a2) or ("right" in a1 and "left" in a2)
+            ok5 = (in_order and not mirrored) or (swapped and len(mirrored) == len(op_alts))
+            rep.check(ok5, "C11-R5", f"{m5.short}: constants are compared with the row's own comparator in program order",
+                      f"operands ({a1[-30:]}, {a2[-30:]}), comparator {'mirrored' if mirrored else 'as written'}" if ok5 else
+                      f"operands in {'program' if in_order else 'swapped' if swapped else 'unknown'} order but the comparator is {'mirrored on some path' if mirrored else 'as written'}: `11 >= 0` is decided as `11 <= 0`", m5.loc(k5))
+    rep.floor("C11-R5", "compile-time decisions in the emitter", n5, 2)
+
 
 
 def _in_annotation(pm, n: ast.AST) -> bool:
